@@ -44,7 +44,7 @@ def rule_p1(repo, col):
                     emitted.setdefault(lit.value, lit)
             else:
                 raise AnalysisError("py2pl: Term(...) with a functor that is not a literal: %s" % norm(n))
-        if isinstance(n, ast.Call) and dotted(n.func) == "Constant":
+        if isinstance(n, ast.Call) and (dotted(n.func) == "Constant" or dotted(n.func) in _constant_wrappers(m)):
             uses_constant = True
     decoded = {}
     dec_constant = False
@@ -88,15 +88,38 @@ def _string_decoder_verdict(expr):
     return None, "shape not understood: %s" % s
 
 
+def _constant_wrappers(m):
+    """module-level one-argument helpers that hand back Constant(<their argument>) (possibly memoised): name -> (function, keyed_by_value)"""
+    out = {}
+    for name, h in m.functions.items():
+        if len(h.params) != 1:
+            continue
+        par = h.params[0]
+        makes = [c for c in ast.walk(h.node) if isinstance(c, ast.Call) and dotted(c.func) == "Constant" and len(c.args) == 1 and norm(c.args[0]) == par]
+        if not makes:
+            continue
+        keyed = False
+        for x in ast.walk(h.node):
+            if isinstance(x, ast.Subscript) and norm(x.slice) == par:
+                keyed = True
+            if isinstance(x, ast.Call) and isinstance(x.func, ast.Attribute) and x.func.attr in ("get", "setdefault", "pop") and x.args and norm(x.args[0]) == par:
+                keyed = True
+            if isinstance(x, ast.Compare) and any(isinstance(o, (ast.In, ast.NotIn)) for o in x.ops) and norm(x.left) == par:
+                keyed = True
+        out[name] = (h, keyed)
+    return out
+
+
 def rule_p2(repo, col):
     py2pl = repo.func("problog.pypl", "py2pl")
     pl2py = repo.func("problog.pypl", "pl2py")
     m = py2pl.module
     # encoder: the str branch wraps with exactly one pair of double quotes
     enc = None
+    wrappers = _constant_wrappers(m)
     for st in _branch_tests_on(py2pl, lambda t: "str" in norm(t)):
         for n in ast.walk(st):
-            if isinstance(n, ast.Call) and dotted(n.func) == "Constant" and n.args:
+            if isinstance(n, ast.Call) and (dotted(n.func) == "Constant" or dotted(n.func) in wrappers) and n.args:
                 enc = n.args[0]
     if enc is None:
         raise AnalysisError("py2pl: string branch not found")
@@ -332,8 +355,19 @@ def rule_p6(repo, col):
         ps = [p_ for p_ in ps if any(s_ in ("type(%s) == %s" % (d, typ), "type(%s) in (int, float)" % d, "isinstance(%s, (int, float))" % d) and t for s_, t, _ in p_.conds)]
         if not ps:
             raise AnalysisError("py2pl: no path for a %s" % typ)
+        wrappers = _constant_wrappers(m)
         for p_ in ps:
             n += 1
+            mm = None
+            for wname, (wh, keyed) in wrappers.items():
+                if p_.value == "%s(%s)" % (wname, d):
+                    mm = (wname, wh, keyed)
+            if mm is not None:
+                col.decide("P6", m, mm[1].node, not mm[2], "a Python %s is wrapped by %s, which builds Constant(value)" % (typ, mm[0]),
+                           "py2pl wraps a Python %s through %s, which memoises Constants in a table keyed by the Python value: Python's ==/hash identify 1, 1.0 and True, so the "
+                           "Constant handed back for 1.0 can be the one made for 1 - numbers of different type are different Prolog terms" % (typ, mm[0]),
+                           construct="py2pl: %s -> %s (value-keyed table)" % (typ, p_.value), function=mm[1].qualname)
+                continue
             col.decide("P6", m, f.node, p_.value == "Constant(%s)" % d, "a Python %s is wrapped unchanged" % typ,
                        "py2pl returns %s for a Python %s: numbers must be wrapped as Constant(%s) without conversion - 2.0 and 2 are different Prolog terms, and pl2py must give back "
                        "the value it was given" % (p_.value, typ, d), construct="py2pl: %s -> %s" % (typ, p_.value), function="py2pl")
